@@ -23,7 +23,8 @@ RULE = ('three streams: (a) random operation sequences (add/get/get_category/rel
         'programs that override statements (route statements: the entry is the live route of the mapper); (d) one statement '
         'given several values of a multi-valued argument, statements executed as compiled configuration TEXT, pairs probing which '
         'statement is in effect (URL static views under two route prefixes; a tween named in the settings and by add_tween); '
-        'every directive that has a public class-level alias also spelled through the alias; two spellings of one thing (default '
+        'the predicate directives with both weights given and different; statements whose action raises when carried out '
+        '(autocommit or at commit) and must leave no entry; every directive that has a public class-level alias also spelled through the alias; two spellings of one thing (default '
         'renderer None / \'\') in an overriding include, with the registered factory probed; two subscribers that are distinct but '
         'equal callables; (e) histories of nested action methods (add-on directives registering entries, calling each other with/without _info, '
         'raising, catching) against the extracted model of the action-info stack. non-trivial = an op sequence containing at least one relate/register-with-relation '
@@ -667,7 +668,9 @@ def _scenarios():
     for fam in ('view', 'route', 'subscriber'):
         S['add_%s_predicate' % fam] = ('_add_predicate', simple(
             'add_%s_predicate' % fam, name='zz_%s_pred' % fam, factory=mk(fam + '_pred_factory'),
-            weighs_more_than=None, weighs_less_than=None))
+            # both weights given, with different values (names of predicates; nothing sorts the list in this scenario)
+            weighs_more_than='xhr' if fam != 'subscriber' else 'zz_sp_before',
+            weighs_less_than='request_method' if fam != 'subscriber' else 'zz_sp_after'))
 
 
     S['add_view'] = ('add_view', simple(
@@ -985,6 +988,45 @@ def _run_pair(case):
                 eff.append(False)
         return [0, len(ents), m, eff, [bool(ok1), bool(ok2)]]
     return [0, len(ents), m]
+
+
+# ------------------------------------------------------------------ statements that fail while being carried out
+def _failing():
+    from zope.interface import Interface
+
+    class IEvt(Interface):
+        pass
+
+    class _Pol:
+        pass
+
+    def sub(event):
+        return None
+    return {
+        # the deferred callable raises ConfigurationError (unknown predicate / not a directory / no authorization policy)
+        'add_subscriber': lambda c: c.add_subscriber(sub, IEvt, zz_c20_unknown_predicate=1),
+        'add_translation_dirs': lambda c: c.add_translation_dirs('harness.c20:no_such_directory'),
+        'set_authentication_policy': lambda c: c.set_authentication_policy(_Pol()),
+    }
+
+
+FAILING = ['add_subscriber', 'add_translation_dirs', 'set_authentication_policy']
+
+
+def _run_failing(case):
+    """a statement whose action raises when it is carried out -- at once with autocommit=True, at commit otherwise -- and the
+    application carries on: the statement did not take effect, so it has no entry (obs: [raised, new entries])"""
+    from pyramid.config import Configurator
+    c = Configurator(autocommit=case['autocommit'])
+    before = {id(e['introspectable']) for cn, items in c.introspector.categorized() for e in items}
+    raised = False
+    try:
+        _failing()[case['name']](c)
+        c.commit()
+    except Exception:
+        raised = True
+    new = [cn for cn, items in c.introspector.categorized() for e in items if id(e['introspectable']) not in before]
+    return [raised, sorted(new)]
 
 
 # ------------------------------------------------------------------ one statement given several values (*specs)
@@ -1366,6 +1408,9 @@ def generate(rng, tier, n):
         yield {'kind': 'directive', 'name': scen, 'variant': 0, 'alias': alias}
     for name in sorted(_PAIRS):
         yield {'kind': 'pair', 'name': name}
+    for name in FAILING:
+        for ac in (True, False):
+            yield {'kind': 'failing', 'name': name, 'autocommit': ac}
     for name in sorted(MULTI):
         for order in ([0, 1], [1, 0], [2, 0, 1], [0]):
             yield {'kind': 'multi', 'name': name, 'order': order}
@@ -1392,6 +1437,8 @@ def valid(case):
             return case == {'kind': 'pair', 'name': case['name']} and case['name'] in _PAIRS
         if case['kind'] == 'nest':
             return set(case) == {'kind', 'calls'} and len(case['calls']) >= 1 and all(_nest_valid(x) for x in case['calls'])
+        if case['kind'] == 'failing':
+            return set(case) == {'kind', 'name', 'autocommit'} and case['name'] in FAILING and isinstance(case['autocommit'], bool)
         if case['kind'] == 'multi':
             return set(case) == {'kind', 'name', 'order'} and case['name'] in MULTI and len(case['order']) >= 1 \
                 and len(set(case['order'])) == len(case['order']) and all(x in range(len(MULTI[case['name']])) for x in case['order'])
@@ -1499,7 +1546,7 @@ def from_wire(case, raw):
 
 
 def equiv(case, obs, model):
-    return case['kind'] in ('directive', 'viewrels', 'pair', 'multi')      # the directive stream is judged by spec_holds against the table
+    return case['kind'] in ('directive', 'viewrels', 'pair', 'multi', 'failing')      # the directive stream is judged by spec_holds against the table
 
 
 def run_impl(case):
@@ -1515,6 +1562,8 @@ def run_impl(case):
         return _run_pair(case)
     if case['kind'] == 'multi':
         return _run_multi(case)
+    if case['kind'] == 'failing':
+        return _run_failing(case)
     if case['kind'] == 'nest':
         return _run_nest(case)
     if case['kind'] == 'tables':
@@ -1547,6 +1596,12 @@ def spec_holds(case, obs, spec):
             eff = obs[3]
             return obs[1] == sum(1 for x in eff if x) and obs[4] == eff and (obs[2] == 2 if all(eff) else True) and any(eff)
         return obs[1] >= 2 and obs[2] == 2      # both took effect: an entry of its own for each
+    if case['kind'] == 'failing':
+        if not (isinstance(obs, list) and len(obs) == 2):
+            return False
+        if not obs[0]:
+            return None             # the statement went through: not the situation this stream is about
+        return obs[1] == []         # it failed while being carried out: it did not take effect and has no entry
     if case['kind'] == 'nest':
         # the property's clause, stated without the model: every entry points at the statement that produced it
         if not (isinstance(obs, list) and len(obs) == 2 and isinstance(obs[0], list) and len(obs[0]) == len(case['calls'])):
@@ -1766,6 +1821,8 @@ def nontrivial(case, obs):
         return isinstance(obs, list) and len(obs) in (3, 5) and obs[0] == 0
     if case['kind'] == 'multi':
         return len(case['order']) >= 2
+    if case['kind'] == 'failing':
+        return isinstance(obs, list) and len(obs) == 2 and obs[0] is True
     if case['kind'] == 'nest':
         return any(it[0] == 'sub' for call_ in case['calls'] for it in call_['body'])
     if case['kind'] == 'directive':
@@ -1802,6 +1859,8 @@ def kinds(case, obs):
         return ['nest', 'nest:%d-statements' % len(case['calls'])] + (['nest:failing-call'] if any(x['fails'] for x in alls) else []) \
             + (['nest:explicit-_info'] if any(x['given'] is not None for x in alls) else []) \
             + (['nest:uncaught-failure'] if any(it[0] == 'sub' and not it[2] and it[1]['fails'] for x in alls for it in x['body']) else [])
+    if case['kind'] == 'failing':
+        return ['failing', 'failing:%s:%s' % (case['name'], 'autocommit' if case['autocommit'] else 'commit')]
     if case['kind'] == 'multi':
         return ['multi', 'multi:%s:%d-values' % (case['name'], len(case['order']))]
     if case['kind'] == 'pair':
